@@ -178,7 +178,13 @@ class Interp:
         cls = st.get('ctor') or ''
         args = [self.ev(f, a, env) for a in st.get('args', [])]
         if cls not in self.prog.classes:
-            return args[0] if len(args) == 1 else None
+            if len(args) == 1:
+                return args[0]
+            if not args and cls and 'std::' not in cls:
+                rec = {'__cls__': cls, '__open__': True}     # a plain struct from a system header
+                self._keep.append(rec)
+                return self.ref(rec)
+            return None
         tg = [g for g in self.prog.by_usr.get(st.get('usr'), ()) if g.d.get('ctor') and g.body is not None]
         if not tg and len(args) == 1 and self.record_of(args[0]) is not None and self.record_of(args[0]).get('__cls__') == cls:
             cp = dict(self.record_of(args[0]))       # implicit (memberwise) copy / move construction
@@ -270,7 +276,19 @@ class Interp:
         elif k == 'DeclStmt':
             for d in st['decls']:
                 ct = d.get('ct') or d.get('t') or ''
-                if '[' in ct and 'init' not in d:
+                if d.get('vla') is not None and 'init' not in d:
+                    n = self.ev(f, d['vla'], env)
+                    if not isinstance(n, int) or n < 0 or n > (1 << 24):
+                        raise AnalysisBroken('%s: variable-length array %s with a size the replay cannot use (%s)' % (f.short, d.get('n'), f.loc(sid)))
+                    self._tmp += 1
+                    name = 'local:%s[%d]#%d' % (d['n'], n, self._tmp)
+                    self.mem[name] = ['uninit'] * n
+                    env[d['d']] = P(name, 0)
+                elif 'init' not in d and '[' not in ct and '*' not in ct and (ct in self.prog.classes or ct.replace('struct ', '') not in WIDTH and not ct.startswith(('unsigned', 'int', 'long', 'short', 'char', 'bool', 'size_t', 'uint', 'float', 'double'))):
+                    rec = self.new_record(ct) if ct in self.prog.classes else {'__cls__': ct, '__open__': True}
+                    self._keep.append(rec)
+                    env[d['d']] = self.ref(rec)
+                elif '[' in ct and 'init' not in d:
                     n = int(ct.split('[')[1].split(']')[0])
                     self._tmp += 1
                     name = 'local:%s#%d' % (d['n'], self._tmp)
@@ -391,6 +409,11 @@ class Interp:
             # in C++ these are lvalues: carry the operation out, then designate the operand
             self.ev(f, e, env)
             return self.lv(f, st['ch'][0], env)
+        if k in q.CALL_KINDS or k in ('ConditionalOperator', 'MaterializeTemporaryExpr', 'CXXBindTemporaryExpr', 'ExprWithCleanups'):
+            v = self.ev(f, e, env)          # a call / conditional yielding a reference: designate the value it denotes
+            if self.record_of(v) is not None:
+                return ('mem', v)
+            return ('val', v)
         raise AnalysisBroken('%s: unsupported lvalue %s at %s' % (f.short, k, f.loc(e)))
 
     def rec_of_expr(self, f, e, env, arrow=False):
@@ -436,11 +459,13 @@ class Interp:
                 return P('this.' + loc[1], 0)
             v = self.this.get(self.canon(self.this, loc[1]))
             return self.ref(v) if isinstance(v, dict) and v is not self.this else v
-        if loc[0] == 'dep':
+        if loc[0] in ('dep', 'val'):
             return loc[1]
         if loc[0] == 'dict':
             key = self.canon(loc[1], loc[2])
             if key not in loc[1]:
+                if loc[1].get('__open__'):
+                    return 'uninit'         # a record of a class the replay has no definition of (system header): its fields are unknown values
                 raise AnalysisBroken('%s: field %s is not part of the replayed record (%s)' % (f.short, loc[2], f.loc(st['i'])))
             v = loc[1][key]
             return self.ref(v) if isinstance(v, dict) else v
@@ -558,6 +583,38 @@ class Interp:
             return wrap(self.arith(f, st, op, a, b), st.get('ct') or st.get('t'))
         if k in ('CXXNullPtrLiteralExpr', 'GNUNullExpr'):
             return 0
+        if k == 'ImplicitValueInitExpr':
+            return 0
+        if k == 'StringLiteral':
+            name = 'str@%d:%d' % (st['l'], st['i'])
+            if name not in self.mem:
+                self.mem[name] = [ord(c) & 0xff for c in (st.get('v') or '')] + [0]
+            return P(name, 0)
+        if k == 'InitListExpr':
+            ct = st.get('ct') or st.get('t') or ''
+            cls = ct if ct in self.prog.classes else None
+            if cls is None and 'unnamed struct' in ct:
+                outer = ct.split('::(unnamed')[0]
+                cls = outer + '::(anonymous)' if (outer + '::(anonymous)') in self.prog.classes else None
+            if cls is not None:
+                rec = self.new_record(cls)
+                self._keep.append(rec)
+                names = [fd['n'] for fd in self.prog.classes[cls]['fields']]
+                for nme, c in zip(names, st.get('ch', [])):
+                    v = self.ev(f, c, env)
+                    sub = self.record_of(v)
+                    rec[self.canon(rec, nme)] = sub if (sub is not None and f.s(c)['k'] == 'InitListExpr') else v
+                return self.ref(rec)
+            if '[' in ct:
+                vals = [self.ev(f, c, env) for c in st.get('ch', [])]
+                n = int(ct.split('[')[1].split(']')[0]) if ct.split('[')[1].split(']')[0].isdigit() else len(vals)
+                self._tmp += 1
+                name = 'init#%d' % self._tmp
+                self.mem[name] = (vals + [0] * n)[:n]
+                return P(name, 0)
+            if len(st.get('ch', [])) == 1:
+                return self.ev(f, st['ch'][0], env)
+            raise AnalysisBroken('%s: initialiser list of a type the replay does not know (%s)' % (f.short, f.loc(e)))
         if k == 'CXXNewExpr':
             self.heap += 1
             if st.get('arr'):
